@@ -134,7 +134,7 @@ fn reserve_heap_unique() {
     reserve_contract(any_heap_rc(MAX_CAP, true));
 }
 
-// @harness name=reserve_heap_shared nodebug=thorough hist=yes props=C01,C02,C03,C05,C06,C11,C12 class=U tier=quick big=yes
+// @harness name=reserve_heap_shared nodebug=quick hist=yes props=C01,C02,C03,C05,C06,C11,C12 class=U tier=quick big=yes
 #[kani::proof]
 #[kani::stub(alloc::alloc::alloc, v_alloc)]
 #[kani::stub(alloc::alloc::dealloc, v_dealloc)]
